@@ -336,7 +336,9 @@ def decide(ctx, failures, findings, guard_of=None):
     for f in failures:
         hit = None
         for kf in findings:
-            if kf.get("check") == f["check"] and kf.get("guard") in f.get("guards", ()) and f.get("model_agrees", True):
+            kc = kf.get("check")
+            if ((kc == f["check"] or (isinstance(kc, list) and f["check"] in kc))
+                    and kf.get("guard") in f.get("guards", ()) and f.get("model_agrees", True)):
                 hit = kf; break
         if hit:
             known(ctx, hit["id"], hit["what"])
